@@ -366,6 +366,8 @@ func runJob3(j job) string {
 		return progBoth(j.data)
 	case "Y3":
 		return sencPassJob(j.data, j.cfg)
+	case "C3":
+		return pfxBoth(j.data)
 	case "E3":
 		var r string
 		mode := mp4.EncFragFileMode(j.cfg[3] - '0')
@@ -456,6 +458,12 @@ func cmdCorr3(seed uint64, n int, exh int) {
 		jobs = append(jobs, job{kind: "P3", cfg: "-", data: d})
 		metas = append(metas, "P\t"+hx.Hex(d))
 	}
+	for _, d := range genC3Inputs(r, n) {
+		jobs = append(jobs, job{kind: "C3", cfg: "-", data: d})
+		metas = append(metas, "C\t"+hx.Hex(d))
+		jobs = append(jobs, job{kind: "M3", cfg: "-", data: d})
+		metas = append(metas, "M\t")
+	}
 	// Y: the second senc pass of the two file loops over trafs mixing clear / encrypted / zero-sample senc
 	for _, c := range genYCases(r, n/4) {
 		data, tops := c.render()
@@ -487,6 +495,8 @@ func cmdCorr3(seed uint64, n int, exh int) {
 			}
 		} else if m[0] == 'Y' {
 			fmt.Fprintf(out, "Y\ty%d\t%s\t%s\n", i, m[2:], res[i])
+		} else if m[0] == 'C' {
+			fmt.Fprintf(out, "C\tc%d\t%s\t%s\n", i, m[2:], res[i])
 		} else if m[0] == 'V' {
 			fmt.Fprintf(out, "V\tv%d\t%s\t%s\n", i, m[2:], res[i])
 		} else if m[0] == 'T' {
@@ -565,6 +575,10 @@ func cmdSearch3(seed uint64, n int) {
 	for _, d := range genP3Inputs(r, n/40) {
 		jobs = append(jobs, job{kind: "X3", cfg: "-", data: d})
 		descs = append(descs, "progpair:"+hx.Hex(d))
+	}
+	for _, d := range genC3Inputs(r, n/40) {
+		jobs = append(jobs, job{kind: "X3", cfg: "-", data: d})
+		descs = append(descs, "pfxpair:"+hx.Hex(d))
 	}
 	// file level: init segment + moof{mfhd, traf{tfhd, trun (every flag combination, 0..2 samples)[, senc]}} + mdat (compact / 16-byte header)
 	{
